@@ -7,4 +7,371 @@ import DuckModel.Spec.Cond
 namespace Duck
 open Duck.Spec
 
+/-! ### truthiness table -/
+
+theorem isTrue_eq_truthy (v : Option Str) : isTrue v = truthy v := by
+  cases v with
+  | none => rfl
+  | some s =>
+    simp only [isTrue, truthy, Generated.falsyWords, List.contains_cons, List.contains_nil,
+      Bool.or_false]
+    generalize asciiLower s = l
+    rw [Bool.eq_iff_iff]
+    simp [and_assoc]
+
+/-! ### keyword tokens -/
+
+theorem tokOpen_ne_tokClose : tokOpen ≠ tokClose := by decide
+theorem tokAnd_ne_tokOpen : tokAnd ≠ tokOpen := by decide
+theorem tokAnd_ne_tokClose : tokAnd ≠ tokClose := by decide
+theorem tokOr_ne_tokOpen : tokOr ≠ tokOpen := by decide
+theorem tokOr_ne_tokClose : tokOr ≠ tokClose := by decide
+theorem tokOr_ne_tokAnd : tokOr ≠ tokAnd := by decide
+
+theorem Atom.tokens_val (s : Str) : (Atom.val s).tokens = [s] := by
+  simp only [Atom.tokens]
+theorem Atom.tokens_group (c : Cond) :
+    (Atom.group c).tokens = tokOpen :: (c.tokens ++ [tokClose]) := by
+  simp only [Atom.tokens]; rfl
+theorem Cond.tokens_empty : Cond.empty.tokens = [] := by
+  simp only [Cond.tokens]
+theorem Cond.tokens_conj (c : Conj) : (Cond.conj c).tokens = c.tokens := by
+  simp only [Cond.tokens]
+theorem Conj.tokens_one (d : Disj) : (Conj.one d).tokens = d.tokens := by
+  simp only [Conj.tokens]
+theorem Conj.tokens_cons (d : Disj) (r : Conj) :
+    (Conj.cons d r).tokens = d.tokens ++ tokAnd :: r.tokens := by
+  simp only [Conj.tokens]; rfl
+theorem Disj.tokens_one (a : Atom) : (Disj.one a).tokens = a.tokens := by
+  simp only [Disj.tokens]
+theorem Disj.tokens_cons (a : Atom) (r : Disj) :
+    (Disj.cons a r).tokens = a.tokens ++ tokOr :: r.tokens := by
+  simp only [Disj.tokens]; rfl
+
+theorem ValOK.unfold {s : Str} (h : ValOK s) :
+    s ≠ tokAnd ∧ s ≠ tokOr ∧ s ≠ tokOpen ∧ s ≠ tokClose := h
+
+/-! ### balanced token lists and group scanning -/
+
+inductive Bal : List Str → Prop
+  | nil : Bal []
+  | tok (s : Str) : s ≠ tokOpen → s ≠ tokClose → Bal [s]
+  | paren {ts : List Str} : Bal ts → Bal (tokOpen :: (ts ++ [tokClose]))
+  | app {as bs : List Str} : Bal as → Bal bs → Bal (as ++ bs)
+
+mutual
+  theorem Atom.bal : ∀ (a : Atom), a.OK → Bal a.tokens
+    | .val s, h => by
+      rw [Atom.tokens_val]
+      simp only [Atom.OK] at h
+      exact Bal.tok s (ValOK.unfold h).2.2.1 (ValOK.unfold h).2.2.2
+    | .group c, h => by
+      rw [Atom.tokens_group]
+      simp only [Atom.OK] at h
+      exact Bal.paren (Cond.bal c h)
+  theorem Cond.bal : ∀ (c : Cond), c.OK → Bal c.tokens
+    | .empty, _ => by rw [Cond.tokens_empty]; exact Bal.nil
+    | .conj c, h => by
+      rw [Cond.tokens_conj]
+      simp only [Cond.OK] at h
+      exact Conj.bal c h
+  theorem Conj.bal : ∀ (c : Conj), c.OK → Bal c.tokens
+    | .one d, h => by
+      rw [Conj.tokens_one]
+      simp only [Conj.OK] at h
+      exact Disj.bal d h
+    | .cons d r, h => by
+      rw [Conj.tokens_cons]
+      simp only [Conj.OK] at h
+      exact Bal.app (Disj.bal d h.1)
+        (Bal.app (Bal.tok tokAnd tokAnd_ne_tokOpen tokAnd_ne_tokClose) (Conj.bal r h.2))
+  theorem Disj.bal : ∀ (d : Disj), d.OK → Bal d.tokens
+    | .one a, h => by
+      rw [Disj.tokens_one]
+      simp only [Disj.OK] at h
+      exact Atom.bal a h
+    | .cons a r, h => by
+      rw [Disj.tokens_cons]
+      simp only [Disj.OK] at h
+      exact Bal.app (Atom.bal a h.1)
+        (Bal.app (Bal.tok tokOr tokOr_ne_tokOpen tokOr_ne_tokClose) (Disj.bal r h.2))
+end
+
+theorem cLoop_cons (ev : List Str → Except CondErr Bool) (st : CSt) (a : Str) (rest : List Str) :
+    cLoop ev st (a :: rest) =
+      match cStep ev st a with
+      | .cont st' => cLoop ev st' rest
+      | .ret b => .ok b
+      | .err e => .error e := by
+  simp only [cLoop]
+  rfl
+
+/-- scanning a balanced token list inside an open group only appends it to `block` -/
+theorem scan_bal (ev : List Str → Except CondErr Bool) {ts : List Str} (hb : Bal ts) :
+    ∀ (k : Nat) (b : List Str) (t p : Option Bool) (f : FoundToken) (rest : List Str),
+      cLoop ev ⟨true, k + 1, b, t, p, f⟩ (ts ++ rest) =
+        cLoop ev ⟨true, k + 1, b ++ ts, t, p, f⟩ rest := by
+  induction hb with
+  | nil => intros; simp
+  | tok s h1 h2 =>
+    intro k b t p f rest
+    simp [cLoop_cons, cStep, h1, h2]
+  | @paren ts _ ih =>
+    intro k b t p f rest
+    have h3 := tokOpen_ne_tokClose
+    rw [List.cons_append, cLoop_cons]
+    simp only [cStep, if_true, Nat.succ_ne_zero, if_false]
+    rw [List.append_assoc, ih (k + 1)]
+    rw [List.cons_append, List.nil_append, cLoop_cons]
+    simp [cStep, h3.symm]
+  | @app as bs _ _ iha ihb =>
+    intro k b t p f rest
+    rw [List.append_assoc, iha, ihb, List.append_assoc]
+
+/-! ### top-level runs -/
+
+/-- the accumulated value of the current disjunction seen so far -/
+def accOf (f : FoundToken) (p : Option Bool) : Bool :=
+  match f with
+  | .or => p.getD false
+  | _ => false
+
+section Run
+variable (ev : List Str → Except CondErr Bool) (n : Nat)
+  (hev : ∀ c : Cond, c.OK → c.tokens.length < n → ev c.tokens = .ok c.eval)
+include hev
+
+theorem atom_run (a : Atom) (hok : a.OK) (hlen : a.tokens.length ≤ n)
+    (t p : Option Bool) (f : FoundToken) (rest : List Str) (hf : f ≠ .value) :
+    cLoop ev ⟨false, 0, [], t, p, f⟩ (a.tokens ++ rest) =
+      cLoop ev ⟨false, 0, [], t, some (a.eval || accOf f p), .value⟩ rest := by
+  cases a with
+  | val s =>
+    simp only [Atom.OK] at hok
+    obtain ⟨h1, h2, h3, h4⟩ := ValOK.unfold hok
+    rw [Atom.tokens_val, List.cons_append, List.nil_append, cLoop_cons]
+    simp only [Atom.eval, ← isTrue_eq_truthy]
+    cases f <;> simp [cStep, foldAtom, accOf, h1, h2, h3, h4] at hf ⊢
+  | group c =>
+    simp only [Atom.OK] at hok
+    rw [Atom.tokens_group] at hlen ⊢
+    simp only [List.length_cons, List.length_append, List.length_nil] at hlen
+    have hc := hev c hok (by omega)
+    have h3 := tokOpen_ne_tokClose
+    rw [List.cons_append, cLoop_cons]
+    simp only [cStep, if_true]
+    rw [List.append_assoc, scan_bal ev (Cond.bal c hok) 0]
+    rw [List.cons_append, List.nil_append, cLoop_cons]
+    simp only [Atom.eval]
+    cases f <;> simp [cStep, foldAtom, accOf, h3.symm, hc] at hf ⊢
+
+theorem disj_run : ∀ (d : Disj), d.OK → d.tokens.length ≤ n →
+    ∀ (t p : Option Bool) (f : FoundToken) (rest : List Str), f ≠ .value →
+      cLoop ev ⟨false, 0, [], t, p, f⟩ (d.tokens ++ rest) =
+        cLoop ev ⟨false, 0, [], t, some (d.eval || accOf f p), .value⟩ rest
+  | .one a, hok, hlen, t, p, f, rest, hf => by
+    simp only [Disj.OK] at hok
+    rw [Disj.tokens_one] at hlen ⊢
+    simp only [Disj.eval]
+    exact atom_run ev n hev a hok hlen t p f rest hf
+  | .cons a r, hok, hlen, t, p, f, rest, hf => by
+    simp only [Disj.OK] at hok
+    rw [Disj.tokens_cons] at hlen ⊢
+    simp only [List.length_cons, List.length_append] at hlen
+    rw [List.append_assoc, atom_run ev n hev a hok.1 (by omega) t p f _ hf]
+    rw [List.cons_append, cLoop_cons]
+    simp only [cStep, tokOr_ne_tokOpen, tokOr_ne_tokClose, tokOr_ne_tokAnd, if_false, if_true,
+      Bool.false_eq_true]
+    rw [disj_run r hok.2 (by omega) t _ .or rest (by simp)]
+    simp only [Disj.eval, accOf, Option.getD_some]
+    cases a.eval <;> cases r.eval <;> cases accOf f p <;> rfl
+
+theorem conj_run : ∀ (c : Conj), c.OK → c.tokens.length ≤ n →
+    ∀ (t p : Option Bool) (f : FoundToken), (f = .none ∨ f = .and) →
+      cLoop ev ⟨false, 0, [], t, p, f⟩ c.tokens = .ok (c.eval && t.getD true)
+  | .one d, hok, hlen, t, p, f, hf => by
+    simp only [Conj.OK] at hok
+    rw [Conj.tokens_one] at hlen ⊢
+    have hacc : accOf f p = false := by rcases hf with rfl | rfl <;> rfl
+    have hf' : f ≠ .value := by rcases hf with rfl | rfl <;> simp
+    have := disj_run ev n hev d hok hlen t p f [] hf'
+    rw [List.append_nil] at this
+    rw [this, hacc]
+    simp [cLoop, Conj.eval]
+  | .cons d r, hok, hlen, t, p, f, hf => by
+    simp only [Conj.OK] at hok
+    rw [Conj.tokens_cons] at hlen ⊢
+    simp only [List.length_cons, List.length_append] at hlen
+    have hacc : accOf f p = false := by rcases hf with rfl | rfl <;> rfl
+    have hf' : f ≠ .value := by rcases hf with rfl | rfl <;> simp
+    rw [disj_run ev n hev d hok.1 (by omega) t p f _ hf', hacc, cLoop_cons]
+    simp only [cStep, tokAnd_ne_tokOpen, tokAnd_ne_tokClose, if_false, if_true, Bool.or_false,
+      Option.getD_some, Bool.false_eq_true]
+    by_cases hT : (t.getD true && d.eval) = true
+    · simp only [hT, if_true]
+      rw [conj_run r hok.2 (by omega) _ _ .and (Or.inr rfl)]
+      simp only [Bool.and_eq_true] at hT
+      simp [Conj.eval, hT.1, hT.2]
+    · simp only [hT]
+      simp only [Bool.not_eq_true] at hT
+      simp only [Conj.eval]
+      rw [Bool.and_comm] at hT
+      rw [Bool.and_assoc, Bool.and_comm r.eval, ← Bool.and_assoc, hT]
+      rfl
+
+theorem cond_run (c : Cond) (hok : c.OK) (hlen : c.tokens.length ≤ n) :
+    cLoop ev {} c.tokens = .ok c.eval := by
+  cases c with
+  | empty => rw [Cond.tokens_empty]; simp [cLoop, Cond.eval, isTrue]
+  | conj c =>
+    simp only [Cond.OK] at hok
+    rw [Cond.tokens_conj] at hlen ⊢
+    have := conj_run ev n hev c hok hlen none none .none (Or.inl rfl)
+    simpa [Cond.eval] using this
+
+end Run
+
+theorem evalSliceF_succ (n : Nat) (args : List Str) :
+    evalSliceF (n + 1) args = cLoop (evalSliceF n) {} args := by
+  cases args with
+  | nil => simp [evalSliceF, cLoop]
+  | cons a rest => simp [evalSliceF]
+
+theorem evalSliceF_correct : ∀ (n : Nat) (c : Cond), c.OK → c.tokens.length < n →
+    evalSliceF n c.tokens = .ok c.eval := by
+  intro n
+  induction n with
+  | zero => intro c _ h; omega
+  | succ n ih =>
+    intro c hok hlen
+    rw [evalSliceF_succ]
+    exact cond_run (evalSliceF n) n ih c hok (by omega)
+
+theorem evalSlice_correct (c : Cond) (h : c.OK) : evalSlice c.tokens = .ok c.eval :=
+  evalSliceF_correct _ c h (Nat.lt_succ_self _)
+
+/-! ### fuel -/
+
+theorem cStep_congr (ev1 ev2 : List Str → Except CondErr Bool) (st : CSt) (a : Str)
+    (h : st.counter = 1 → ev1 st.block = ev2 st.block) :
+    cStep ev1 st a = cStep ev2 st a := by
+  unfold cStep
+  split
+  · rfl
+  · split
+    · split
+      · rfl
+      · split
+        · rename_i h1; rw [h h1]
+        · rfl
+    · rfl
+
+theorem foldAtom_cont {st st' : CSt} {b : Bool} (h : foldAtom st b = .cont st') :
+    st'.counter = st.counter ∧ st'.block = st.block := by
+  unfold foldAtom at h
+  split at h <;> first | (cases h; exact ⟨rfl, rfl⟩) | cases h
+
+/-- the bound kept by the loop: inside a group, the collected block plus the remaining
+    tokens stay below the original length -/
+theorem cStep_inv (ev : List Str → Except CondErr Bool) (m : Nat) (st st' : CSt) (a : Str)
+    (rest : List Str)
+    (h0 : st.counter = 0 → (a :: rest).length ≤ m)
+    (h1 : st.counter ≠ 0 → st.block.length + (a :: rest).length < m)
+    (hs : cStep ev st a = .cont st') :
+    (st'.counter = 0 → rest.length ≤ m) ∧
+      (st'.counter ≠ 0 → st'.block.length + rest.length < m) := by
+  simp only [List.length_cons] at h0 h1
+  unfold cStep at hs
+  split at hs
+  · cases hs
+    by_cases hc : st.counter = 0
+    · have := h0 hc
+      simp [hc]; omega
+    · have := h1 hc
+      simp [hc]; omega
+  · split at hs
+    · split at hs
+      · cases hs
+      · rename_i hc
+        have := h1 hc
+        split at hs
+        · split at hs
+          · cases hs
+          · obtain ⟨e1, e2⟩ := foldAtom_cont hs
+            simp only at e1 e2
+            rw [e1, e2]
+            simp; omega
+        · cases hs
+          simp; omega
+    · split at hs
+      · cases hs
+        by_cases hc : st.counter = 0
+        · have := h0 hc
+          simp [hc]; omega
+        · have := h1 hc
+          simp [hc]; omega
+      · have key : ∀ st'' : CSt, st''.counter = st.counter → st''.block = st.block →
+            (st''.counter = 0 → rest.length ≤ m) ∧
+              (st''.counter ≠ 0 → st''.block.length + rest.length < m) := by
+          intro st'' e1 e2
+          rw [e1, e2]
+          exact ⟨fun hc => by have := h0 hc; omega, fun hc => by have := h1 hc; omega⟩
+        split at hs
+        · split at hs
+          · dsimp only at hs
+            split at hs
+            · cases hs; exact key _ rfl rfl
+            · cases hs
+          · cases hs
+        · split at hs
+          · split at hs
+            · cases hs; exact key _ rfl rfl
+            · cases hs
+          · obtain ⟨e1, e2⟩ := foldAtom_cont hs
+            exact key _ e1 e2
+
+theorem cLoop_congr (ev1 ev2 : List Str → Except CondErr Bool) (m : Nat)
+    (h : ∀ b : List Str, b.length < m → ev1 b = ev2 b) :
+    ∀ (rest : List Str) (st : CSt), (st.counter = 0 → rest.length ≤ m) →
+      (st.counter ≠ 0 → st.block.length + rest.length < m) →
+      cLoop ev1 st rest = cLoop ev2 st rest := by
+  intro rest
+  induction rest with
+  | nil => intro st _ _; simp [cLoop]
+  | cons a rest ih =>
+    intro st h0 h1
+    have hstep : cStep ev1 st a = cStep ev2 st a := by
+      apply cStep_congr
+      intro hc
+      apply h
+      have := h1 (by omega)
+      simp only [List.length_cons] at this
+      omega
+    rw [cLoop_cons, cLoop_cons, hstep]
+    cases hs : cStep ev2 st a with
+    | cont st' =>
+      obtain ⟨i0, i1⟩ := cStep_inv ev2 m st st' a rest h0 h1 hs
+      exact ih st' i0 i1
+    | ret b => rfl
+    | err e => rfl
+
+theorem evalSliceF_fuel_succ : ∀ (n : Nat) (args : List Str), args.length < n →
+    evalSliceF (n + 1) args = evalSliceF n args := by
+  intro n
+  induction n with
+  | zero => intro args h; omega
+  | succ k ih =>
+    intro args hlen
+    rw [evalSliceF_succ, evalSliceF_succ]
+    apply cLoop_congr _ _ k (fun b hb => ih b hb)
+    · intro _; omega
+    · intro hc; exact absurd rfl hc
+
+theorem evalSliceF_fuel_add (args : List Str) (extra : Nat) :
+    evalSliceF (args.length + 1 + extra) args = evalSliceF (args.length + 1) args := by
+  induction extra with
+  | zero => rfl
+  | succ e ih =>
+    rw [← Nat.add_assoc, evalSliceF_fuel_succ _ _ (by omega), ih]
+
 end Duck
